@@ -171,11 +171,11 @@ func (d *instDriver) justify(round uint64, phase gpbft.Phase, value *gpbft.ECCha
 		}
 		chosen = append(chosen, i)
 		pw += d.pt.ScaledPower[i]
-		if gpbft.IsStrongQuorum(pw, d.pt.ScaledTotal) {
+		if indepStrong(pw, d.pt.ScaledTotal) {
 			break
 		}
 	}
-	if !gpbft.IsStrongQuorum(pw, d.pt.ScaledTotal) {
+	if !indepStrong(pw, d.pt.ScaledTotal) {
 		return nil
 	}
 	sort.Ints(chosen)
